@@ -165,8 +165,9 @@ LoadCli == /\ c.k = "init" /\ Family = "cli"
 E2ETrees(z) == { p \in CFPrograms(z) \cup FNPrograms(z) \cup MUPrograms(z) \cup (IF Tier = "quick" THEN {} ELSE ARPrograms(z)) : ProgramOK(p) }
 E2EIO(z) == { cc \in { [tree |-> <<p>>, inp |-> i] : p \in IOProgs, i \in IOInputs } : ProgramOK(cc.tree) }
 MapLines(evs, lines) == [n \in 1..Len(evs) |-> [evs[n] EXCEPT !.line = lines[evs[n].line]]]
+ClashNaming(k) == [n \in {"x", "y", "fun"} |-> NMS!Variants(CASE n = "x" -> NMS!ClashPairs[k][1] [] n = "y" -> NMS!ClashPairs[k][2] [] OTHER -> <<"simple", "foo">>)]
 E2ECase(tree, inp, tp, off) ==
-  LET nm == Naming(off)
+  LET nm == IF off < 0 THEN ClashNaming(-off) ELSE Naming(off)      \* negative: the k-th pair of names that must stay apart
       numbered == Number(tree)
       r == Render(tp, nm, numbered)
       fin == RunAll(Init0(numbered, inp, -1, 0))
@@ -197,6 +198,8 @@ LoadE2E == /\ c.k = "init" /\ Family = "e2e"
                     c' = [k |-> "e2epick", tree |-> t, inp |-> <<>>, tape |-> tp, off |-> off]
               \/ \E t \in { p \in FNPrograms(0) \cup MUPrograms(0) \cup PRPrograms(0) : ProgramOK(p) }, tp \in E2ETapes, off \in {0, 12, 24} :
                     c' = [k |-> "e2epick", tree |-> t, inp |-> <<>>, tape |-> tp, off |-> off]
+              \/ \E t \in NCPrograms, tp \in E2ETapes, k \in 1..Len(NMS!ClashPairs) :
+                    c' = [k |-> "e2epick", tree |-> t, inp |-> <<>>, tape |-> tp, off |-> -k]
               \/ \E t \in { p \in CFPrograms(0) : ProgramOK(p) }, tp \in E2ETapesFew, off \in {0} :
                     c' = [k |-> "e2epick", tree |-> t, inp |-> <<>>, tape |-> tp, off |-> off]
               \/ \E t \in { p \in (IF Tier = "quick" THEN {} ELSE ARPrograms3(0)) : ProgramOK(p) }, tp \in E2ETapesFew, off \in {12} :
